@@ -625,12 +625,14 @@ impl<'a, 'b> GeneratorState<'a> {
                         }
                         self.sasm(TYA)?;
                         self.acc_in_use = true;
+                        // The operands may have been switched: go on with the other operand
+                        // and the operator as they are now, not as they were given
                         return self.generate_condition_ex(
                             &ExprType::A(false),
-                            op,
-                            r,
+                            &operator,
+                            right,
                             pos,
-                            negate,
+                            false,
                             label,
                         );
                     }
@@ -678,12 +680,14 @@ impl<'a, 'b> GeneratorState<'a> {
                         }
                         self.sasm(TXA)?;
                         self.acc_in_use = true;
+                        // The operands may have been switched: go on with the other operand
+                        // and the operator as they are now, not as they were given
                         return self.generate_condition_ex(
                             &ExprType::A(false),
-                            op,
-                            r,
+                            &operator,
+                            right,
                             pos,
-                            negate,
+                            false,
                             label,
                         );
                     }
